@@ -35,6 +35,9 @@ func ipn(r *rand.Rand) *int {
 
 func genGraph(r *rand.Rand) *shape.Graph {
 	g := &shape.Graph{N: r.Intn(5)}
+	if r.Intn(3) > 0 {
+		g.Meta = shape.Meta{MT: []int{r.Intn(9), r.Intn(9)}, MP: ipn(r), MM: map[string]int{"m": r.Intn(9)}}
+	}
 	g.A = [2]*int{ipn(r), ipn(r)}
 	for i := range g.B {
 		if r.Intn(3) > 0 {
@@ -193,6 +196,16 @@ func sexp(v reflect.Value, t idtab) string {
 
 // mutateAll changes every cell reachable from g through exported fields
 func mutateAll(g *shape.Graph) {
+	for i := range g.MT {
+		g.MT[i] += 1000
+	}
+	if g.MP != nil {
+		*g.MP += 1000
+	}
+	if g.MM != nil {
+		g.MM["m"] += 1000
+		g.MM["new"] = 1
+	}
 	for i := range g.A {
 		if g.A[i] != nil {
 			*g.A[i] += 1000
@@ -379,6 +392,30 @@ func runClone(w *bufio.Writer, seed int64, n int) {
 				}
 			}
 			db2.Close()
+			// a read INTO the caller's memory (GetByUUID / Get given an object that already holds data:
+			// an older copy being refreshed): what comes back, and what every later read returns, is the
+			// stored value, not a mix with the caller's memory
+			db3 := sod.Open(root)
+			mine := genGraph(r)
+			mine.SetU(nil)
+			mutateAll(mine)
+			if r6, err := db3.GetByUUID(mine, g.UUID()); err != nil {
+				fmt.Fprintf(w, "! C14 get into a held object: %v\n", err)
+			} else {
+				if gjson(r6) != want {
+					fmt.Fprintf(w, "! C14 cfg(cache=%v async=%v): GetByUUID into an object that holds data returns a mix of the stored value and of the caller's memory: got %s want %s\n", s.Cache, ci&2 == 2, gjson(r6), want)
+				}
+				if r7, err7 := db3.GetByUUID(&shape.Graph{}, g.UUID()); err7 == nil && gjson(r7) != want {
+					fmt.Fprintf(w, "! C14 cfg(cache=%v async=%v): after a read into an object that holds data, later reads return %s instead of the stored %s\n", s.Cache, ci&2 == 2, gjson(r7), want)
+				}
+				held := genGraph(r)
+				held.SetU(nil)
+				held.Initialize(g.UUID())
+				if r8, err8 := db3.Get(held); err8 == nil && gjson(r8) != want {
+					fmt.Fprintf(w, "! C14 cfg(cache=%v async=%v): Get into an object that holds data returns %s instead of the stored %s\n", s.Cache, ci&2 == 2, gjson(r8), want)
+				}
+			}
+			db3.Close()
 			fmt.Fprintf(w, "probe ok\n")
 		}
 		db.Close()
